@@ -638,6 +638,31 @@ def search_C03(seed):
     return None
 
 
+def search_C10(seed):
+    """pooling path: a vehicle and two requests with random fleet memberships; DispatchPoolingTrip.enter over a plan that
+    contains both requests commits only if every request of the plan grants access to the vehicle"""
+    from nrel.hive.model.membership import Membership
+    from nrel.hive.model.vehicle.trip_phase import TripPhase
+    from nrel.hive.state.vehicle_state.dispatch_pooling_trip import DispatchPoolingTrip
+    rnd = random.Random(seed)
+    fleets = [None, "a", "b"]
+    vf = rnd.choice([(), ("a",), ("b",), ("a", "b")])
+    veh = mock_vehicle_from_geoid(vehicle_id="v0", geoid=CELLS[0], membership=Membership.from_tuple(vf) if vf else Membership())
+    sim = mock_sim(vehicles=(veh,), sim_time=SimTime(600))
+    rf = [rnd.choice(fleets), rnd.choice(fleets)]
+    for i in range(2):
+        sim = ops.add_entity(sim, mock_request_from_geoids(request_id=f"r{i}", origin=CELLS[1 + i], destination=CELLS[3], departure_time=SimTime(500), fleet_id=rf[i]))
+    env = mock_env().set_reporter(Rep())
+    plan = (("r0", TripPhase.PICKUP), ("r1", TripPhase.PICKUP), ("r0", TripPhase.DROPOFF), ("r1", TripPhase.DROPOFF))
+    route = sim.road_network.route(sim.vehicles["v0"].position, sim.requests["r0"].position)
+    err, out = DispatchPoolingTrip.build("v0", plan, route).enter(sim, env)
+    if err is None and out is not None:
+        for i in range(2):
+            if not sim.requests[f"r{i}"].membership.grant_access_to_membership(sim.vehicles["v0"].membership):
+                return (f"vehicle of fleets {vf or 'none'} entered a pooling dispatch over requests of fleets {rf}: request r{i} does not grant it access")
+    return None
+
+
 def search_C05(seed):
     """a station defined on several rows of the stations file (random order of plug types, electric and gasoline): every
     unit of energy sold through any of its plugs shows up in the station's dispensed-energy ledger"""
@@ -738,9 +763,10 @@ def main():
     n = int(sys.argv[3]) if len(sys.argv) > 3 else 150
     if pid == "C01":
         n = min(n, 12)          # six processes per scenario
-    if pid in ("C01", "C03", "C05", "C06", "C07", "C09", "C11", "C13", "C14", "C15", "C18", "C19", "C20"):
+    if pid in ("C01", "C03", "C05", "C10", "C06", "C07", "C09", "C11", "C13", "C14", "C15", "C18", "C19", "C20"):
         fn_, what_ = {"C06": (search_C06, "traverse() over a random multi-link route"), "C13": (search_C13, "route() on an in-memory 4x4 street grid"),
                       "C03": (search_C03, "one vehicle dispatched to one request (a third of them zero-length trips), six steps"),
+                      "C10": (search_C10, "DispatchPoolingTrip.enter for a vehicle and two requests with random fleet memberships"),
                       "C05": (search_C05, "a station read from several rows of the stations file, energy sold through each plug"),
                       "C14": (search_C14, "route() on a random in-memory street grid with mixed link speeds"),
                       "C01": (search_C01, "one scenario with tied requests, built-in Dispatcher, six interpreter hash seeds"),
